@@ -251,6 +251,41 @@ def run(ctx, canary=False):
         except Exception as ex:
             import traceback; info["traceback"] = traceback.format_exc()[-1500:]
             ctx.violation("estimate history raised %r" % ex, info, {"kind": "crash"})
+    # the very same request objects again after the caller refreshed an answer vector IN PLACE (and after an unrelated direct
+    # solver call): the second result is that of a fresh estimator on the refreshed data, in a new model object
+    for s_ in ("MD", "RDA", "IG"):
+        info = {"repeated_request": True, "solver": s_}
+        ctx.case(json.dumps(info), nontrivial=True)
+        try:
+            eng = fresh_engine(False, iters, dict(ZEROS))
+            meas = [tuple(m) for m in lists()["M1"]]
+            m1 = E.quiet(eng.estimate, meas, total=40.0, engine=s_)
+            a1 = answers(m1)
+            meas[0][1][:] = meas[0][1] + 6.0                      # same array object, new contents
+            m2 = E.quiet(eng.estimate, meas, total=40.0, engine=s_)
+            fm = E.quiet(fresh_engine(False, iters, dict(ZEROS)).estimate, [tuple(m) for m in meas], total=40.0, engine=s_)
+            d = same(answers(m2), answers(fm))
+            if d:
+                ctx.violation("the same request objects, with an answer vector refreshed in place, give another result than a fresh engine: %s" % d, info, {"kind": "history"})
+            if m2 is m1:
+                ctx.violation("a repeated request returned the model object of the earlier call", info, {"kind": "snapshot"})
+            elif same(answers(m1), a1):
+                ctx.violation("the model of the first call changed after the repeated request: %s" % same(answers(m1), a1), info, {"kind": "snapshot"})
+        except Exception as ex:
+            ctx.violation("repeated request raised %r" % ex, info, {"kind": "crash"})
+    # the caller's zero specification, also when a key is a bare attribute name: untouched by constructing an engine
+    for spec in ({"a": [(1,)]}, {"c": [(0,)], ("a", "b"): [(0, 1)]}):
+        ctx.case(json.dumps({"zero_spec_keys": [str(k_) for k_ in spec]}), nontrivial=True)
+        keys0 = list(spec.keys())
+        vals0 = [list(v_) for v_ in spec.values()]
+        try:
+            FactoredInference(Domain(*DOM), structural_zeros=spec, iters=2)
+        except Exception as ex:
+            ctx.violation("constructing an estimator with zero specification %r raised %r" % (spec, ex), {"spec": str(spec)}, {"kind": "crash"})
+            continue
+        if list(spec.keys()) != keys0 or any(k1 is not k0 for k1, k0 in zip(spec.keys(), keys0)) or [list(v_) for v_ in spec.values()] != vals0:
+            ctx.violation("constructing an estimator modified the caller's zero specification: keys %r -> %r" % (keys0, list(spec.keys())),
+                          {"spec_before": str(keys0), "spec_after": str(list(spec.keys()))}, {"kind": "inputs"})
     # warm start converges to the same optimum as a cold start (grown / changed lists)
     nw = 40 if thorough else 8
     for i_ in range(nw):
